@@ -129,3 +129,36 @@ package brontide
 //@   site call split: assert actThree[0] == HandshakeVersion && retn(DecryptAndHash, 1, 0) == nil && retn(DecryptAndHash, 1, 1) == nil &&
 //@        retn(ParsePubKey, 1) == nil
 //@   site return nil: assert called(split)
+//@
+//@ func (s *symmetricState) mixKey
+//@   props C11
+//@   requires s != nil
+//@   site call hkdf.New: assert arg(1) == input && arg(2) == sliceof(salt)
+//@   site call Read nth 0: assert arg(1) == sliceof(s.chainingKey)
+//@   site call Read nth 1: assert arg(1) == sliceof(s.tempKey)
+//@   site call InitializeKey: assert arg(0) == addr(s.cipherState) && arg(1) == s.tempKey
+//@
+//@ func (s *symmetricState) mixHash
+//@   props C11
+//@   requires s != nil
+//@   site call Write nth 0: assert arg(1) == sliceof(s.handshakeDigest)
+//@   site call Write nth 1: assert arg(1) == data
+//@   site call copy: assert arg(0) == sliceof(s.handshakeDigest) && arg(1) == ret(Sum)
+//@
+//@ func (s *symmetricState) EncryptAndHash
+//@   props C11
+//@   requires s != nil && s.nonce < 1000
+//@   site call Encrypt: assert arg(1) == sliceof(s.handshakeDigest) && arg(3) == plaintext
+//@   site call mixHash: assert arg(1) == ret(Encrypt)
+//@   ensures result == ret(Encrypt)
+//@
+//@ func (s *symmetricState) InitializeSymmetric
+//@   props C11
+//@   requires s != nil
+//@   site call Sum256: assert arg(0) == protocolName
+//@   site call InitializeKey: assert s.chainingKey == s.handshakeDigest
+//@
+//@ func ecdh
+//@   props C11
+//@   site call ECDH: assert arg(1) == pub
+//@   ensures result1 == retn(ECDH, 1)
